@@ -3,10 +3,18 @@
 Spec: spec/SessionOps.tla (Denotes / Exposed / PubSyms: the reading of the
 statement; the generated module files), spec/Session.tla in mode "c11" (the
 loader as a sub-step machine; TLC first generates a module graph edge by edge,
-then runs importer programs), cfgs Modules_quick / Modules_pairs / Modules_sim
-(thorough: Modules_thorough, Modules_sim5).  TLC checks BindsExactly, LoadOnce,
+then runs importer programs), cfgs Modules_quick / Modules_pairs / Modules_sim /
+Modules_spell (thorough: Modules_thorough, Modules_sim5).  TLC checks BindsExactly, LoadOnce,
 LoadOnlyInLoadStep, ModuleScopeIsBase, SingleInstance, CycleIsError and, on
 the two-module universe, termination of every command.
+
+Round 2: importer forms `import []` and `import [s as a, s as b]` (IForms);
+bundled modules under every spelling of their name (Modules_spell: sys, which
+the start-up code has loaded, and stat; SessionOps.Canon) - module objects of
+one module must show the very same members (category instance) and a bundled
+file must have one evaluated instance (loadonce); the command line runner
+(ckl.run -m <dir>) executing importer programs over generated module graphs
+with nested requires must print what the spec predicts.
 
 Binding A: every generated module graph is written to disk as .ckl files (a
 load counter appended at the top of every file, private mutable state with
@@ -26,7 +34,7 @@ import time
 from .common import MachineryError
 from . import c10 as S
 
-C11_VERDICT = {"names", "members", "value", "probe", "loadonce", "outcome-cls"}
+C11_VERDICT = {"names", "members", "value", "probe", "loadonce", "outcome-cls", "instance"}
 INTERPS = ["i1"]
 
 
@@ -141,15 +149,157 @@ def probes(run):
     run.cov["probes"] = out
 
 
+def runner_program(g, sid, trie):
+    """First path of a trie of importer commands -> (successful commands, the
+    failing command that ends it or None, state reached by the successful ones)."""
+    cmds, failing, cur, node = [], None, sid, trie
+    while node:
+        k = sorted(node, key=int)[0]
+        c, o, q = g.out[cur][int(k)]
+        src = S.cmd_source(c, g.binding(cur, c))
+        if o["cls"] != "val":
+            failing = (src, o["kind"])
+            break
+        cmds.append(src)
+        node, cur = node[k], q
+    return cmds, failing, cur
+
+
+def runner_expect(obs):
+    """Lines the program prints after its commands, from the predicted scope."""
+    calls = []
+    for nm in sorted(obs):
+        w = obs[nm]
+        if w["v"]["k"] == "call":
+            calls.append((nm, w["v"]["r"]))
+        elif w["v"]["k"] == "mod":
+            mem = w["mem"] if w["mem"] != [] else {}
+            calls += [(f"{nm}->{k}", mem[k]["r"]) for k in sorted(mem) if mem[k]["k"] == "call"]
+    return sorted(n for n in obs if n != "secret"), calls
+
+
+def runner(run, g, fsdefs, roots, rng, info, count):
+    """Configuration: the command line runner with the module path given by
+    -m.  Importer programs of the simulation whose module graph has nested
+    requires are run through `python -m ckl.run -m <dir> main.ckl`; the program
+    prints the names it gained and every counter reachable from its scope.
+    Compared with the spec: the names, the counter values, and that a program
+    the spec predicts to succeed reports no error (one predicted to fail
+    reports one)."""
+    import os
+    import re
+    import shutil
+    import subprocess
+    import sys
+    import tempfile
+    repo = os.environ.get("VERIF_REPO", "/repo")
+    nested = sorted((sid, fi) for (sid, fi, _) in roots if any(e["m"] != e["d"] for e in fsdefs[fi]["g"]))
+    tries = {(sid, fi): t for (sid, fi, t) in roots}
+    picks = rng.sample(nested, min(count, len(nested)))
+    d = tempfile.mkdtemp(prefix="c11run-")
+    ran = 0
+    try:
+        for n, (sid, fi) in enumerate(picks):
+            md = os.path.join(d, "m%d" % n)
+            os.mkdir(md)
+            for m, rec in fsdefs[fi]["fs"].items():
+                with open(os.path.join(md, m + ".ckl"), "w") as f:
+                    f.write("\n".join(l for l in S.module_source(m, rec).split("\n")
+                                      if not l.startswith("append(loadlog")))
+            cmds, failing, cur = runner_program(g, sid, tries[(sid, fi)])
+            obs = g.obs[cur]["i1"] if g.obs[cur]["i1"] != [] else {}
+            names, calls = runner_expect(obs)
+            main = ["def secret = 1;", "def base_names = set(ls());"] + [c + ";" for c in cmds]
+            main.append("println('NAMES ' + string(set(ls()) - base_names));")
+            main += [f"println('CALL {e} ' + string({e}()));" for e, _ in calls]
+            if failing:
+                main.append(failing[0] + ";")
+            main.append("println('END');")
+            with open(os.path.join(md, "main.ckl"), "w") as f:
+                f.write("\n".join(main) + "\n")
+            try:
+                p = subprocess.run([sys.executable, "-m", "ckl.run", "-m", md, os.path.join(md, "main.ckl")],
+                                   env=dict(os.environ, PYTHONPATH=os.path.join(repo, "src")), cwd=md,
+                                   stdout=subprocess.PIPE, stderr=subprocess.STDOUT, text=True, timeout=300)
+                lines = p.stdout.splitlines()
+            except subprocess.TimeoutExpired:
+                lines = ["TIMEOUT"]
+            ran += 1
+            gotn = None
+            gotc = []
+            other = []
+            for l in lines:
+                if l.startswith("NAMES "):
+                    gotn = sorted(set(re.findall(r"'(\w+)'", l)) - {"base_names"})
+                elif l.startswith("CALL "):
+                    gotc.append(tuple(l.split(" ")[1:3]))
+                elif l != "END":
+                    other.append(l)
+            hist = " ; ".join(cmds + ([failing[0]] if failing else []))
+            fsk = S.gen_label(fsdefs[fi]["g"])
+            case = {"kind": "runner", "fs": fsdefs[fi], "main": main, "names": names,
+                    "calls": [[e, r] for e, r in calls], "output": lines[-12:]}
+            finds = []
+            if gotn is None:
+                finds.append(("outcome-cls", f"reported {other[:1]} before the successful commands were through"))
+            else:
+                if gotn != names:
+                    finds.append(("names", f"gained the names {gotn}, the spec predicts {names}"))
+                if gotc != [(e, str(r)) for e, r in calls]:
+                    finds.append(("value", f"printed the counters {gotc}, the spec predicts {calls}"))
+                ended = "END" in lines
+                if failing is None and not ended:
+                    finds.append(("outcome-cls", f"reported {other[:1]}, the spec predicts success"))
+                elif failing is not None and ended:
+                    finds.append(("outcome-cls", f"reported no error, the spec predicts {failing[1]}"))
+                elif failing is not None:
+                    pat = {"circular": "circular module dependency", "boom": "boom", "notfound": "not found",
+                           "undef": "not defined"}.get(failing[1])
+                    if pat and not any(pat in l for l in other):
+                        run.drift("runner:error kind", {"history": hist, "got": other[:1], "spec": failing[1]})
+            for cat, what in finds:
+                run.violation(f"c11/runner:{cat}:{hist} :: {what} fs={fsk}",
+                              f"{cat}: `ckl.run -m <dir>` on [{hist}] {what}; fs={fsk}", case)
+    finally:
+        shutil.rmtree(d, ignore_errors=True)
+    info["runner"] = {"programs_run_through_ckl_run": ran, "graphs_with_nested_requires": len(nested)}
+    run.cov["runner_programs"] = ran
+
+
+def replay_runner(run, case):
+    import os
+    import shutil
+    import subprocess
+    import sys
+    import tempfile
+    repo = os.environ.get("VERIF_REPO", "/repo")
+    d = tempfile.mkdtemp(prefix="c11run-")
+    try:
+        for m, rec in case["fs"]["fs"].items():
+            with open(os.path.join(d, m + ".ckl"), "w") as f:
+                f.write("\n".join(l for l in S.module_source(m, rec).split("\n")
+                                  if not l.startswith("append(loadlog")))
+        with open(os.path.join(d, "main.ckl"), "w") as f:
+            f.write("\n".join(case["main"]) + "\n")
+        p = subprocess.run([sys.executable, "-m", "ckl.run", "-m", d, os.path.join(d, "main.ckl")],
+                           env=dict(os.environ, PYTHONPATH=os.path.join(repo, "src")), cwd=d,
+                           stdout=subprocess.PIPE, stderr=subprocess.STDOUT, text=True, timeout=300)
+        lines = p.stdout.splitlines()
+        if lines[-12:] == case["output"]:
+            run.violation("c11/runner:replay:same output as recorded", "runner: " + " | ".join(lines[-4:]), case)
+    finally:
+        shutil.rmtree(d, ignore_errors=True)
+
+
 def run(run):
     quick = run.tier == "quick"
     rng = random.Random(run.seed)
     info = {}
     total_edges = total_evals = 0
 
-    def bfs(cfg, label, name):
+    def bfs(cfg, label, name, off=()):
         nonlocal total_edges, total_evals
-        g, res = S.tlc_graph(run, cfg, label, c11=True)
+        g, res = S.tlc_graph(run, cfg, label, c11=True, off=off)
         fsdefs, roots = roots_of(g)
         t0 = time.time()
         e, v = S.walk(run, g, INTERPS, [(sid, fi, None) for sid, fi in roots], fsdefs, "cover",
@@ -186,6 +336,9 @@ def run(run):
     k = sorted(trie, key=int)[0]
     run.sample({"importer": {"fs": fsdefs[fi]["g"], "first_command": S.cmd_source(g.out[sid][int(k)][0]),
                              "predicted_scope_after": g.obs[g.out[sid][int(k)][2]]["i1"]}})
+    runner(run, g, fsdefs, roots, rng, info, 12 if quick else 80)
+    bfs("Modules_spell", "Session/c11: bundled modules sys / stat under every spelling, importer programs <= 3 "
+        "commands", "bundled_spellings", off=("GenEdge",))
     if not quick:
         bfs("Modules_thorough", "Session/c11: all graphs over 3 modules, importer programs <= 2 commands",
             "graphs3_pairs")
@@ -209,8 +362,17 @@ def run(run):
         "a module whose top level fails is run again by the next require; `at most once` is judged for "
         "modules that end up in the cache",
         "aliases and definition names never collide with module identifiers",
+        "a bundled module is one module whatever the case of the name it is required under (the loader "
+        "finds it case-insensitively); its members are not modelled, only the object, the instance it shows "
+        "and the number of evaluated instances in the module cache",
+        "`unqualified` / `import [m]` binding a module object that the module itself required is within "
+        "`binds all public symbols` (the statement's only notion of private is the underscore)",
+        "command line runner: the generated module files are used without their load-log line (the runner "
+        "offers no way to put a list into the base environment)",
     ]
 
 
 def replay(run, case):
+    if case.get("kind") == "runner":
+        return replay_runner(run, case)
     S.replay_history(run, case, C11_VERDICT, "c11")
